@@ -6,7 +6,8 @@ from . import C05, C11
 
 ID = 'C12'
 LEAN_TARGETS = ['Properties.C12']
-THEOREMS = ['DiffIO.C12_forwarded', 'DiffIO.C12_diff_iff_verdict', 'DiffIO.C12_empty_implies_equal_hash', 'DiffIO.C12_hashSound_concrete', 'DiffIO.C12_empty_implies_equal_deephash', 'DiffIO.C05_verdict_deephash', 'DiffIO.C12_repetition_matches']
+THEOREMS = ['DiffIO.C12_forwarded', 'DiffIO.C12_diff_iff_verdict', 'DiffIO.C12_empty_implies_equal_hash', 'DiffIO.C12_hashSound_concrete', 'DiffIO.C12_empty_implies_equal_deephash', 'DiffIO.C05_verdict_deephash', 'DiffIO.C12_repetition_matches',
+            'DiffIO.C12_equal_deephash_iff_verdict', 'DiffIO.C12_equal_deephash_iff_empty_diff', 'DiffIO.C05_list_is_nested_set_equality']
 RULE = ('pairs of nested values: shuffles / duplications / near-duplicates / edits (the C05 generator) and pairs that differ only in what an option ignores (the C11 normalisers, '
         'dict keys included) x each shared option in {none, ignore_string_case, ignore_string_type_changes, ignore_numeric_type_changes, significant_digits (3, 0, and 2 in e notation), '
         'truncate_datetime, default_timezone, use_enum_value} and pairs of them x report_repetition (ignore_repetition = not report_repetition): '
